@@ -125,7 +125,7 @@ type skipPath struct {
 type c15Walker struct {
 	c       *Ctx
 	bridges map[string][]*ssa.Function // key: caller function + "|" + invoked/dynamic callee description
-	allowed func(*ssa.Function) bool
+	allowed func(from, f *ssa.Function) bool
 	paths   []skipPath
 }
 
@@ -145,7 +145,7 @@ func (w *c15Walker) walk(fn *ssa.Function, env map[*ssa.Parameter]lin, chain []s
 		}
 		var targets []*ssa.Function
 		if callee := StaticCallee(cl); callee != nil {
-			if w.allowed(callee) {
+			if w.allowed(fn, callee) {
 				targets = []*ssa.Function{callee}
 			}
 		} else {
@@ -213,11 +213,24 @@ func checkC15(c *Ctx) {
 		return
 	}
 	w := &c15Walker{c: c, bridges: map[string][]*ssa.Function{}}
-	w.allowed = func(f *ssa.Function) bool {
+	callsCheck := func(f *ssa.Function) bool {
+		for _, cl := range Calls(f) {
+			if StaticCallee(cl) == check {
+				return true
+			}
+		}
+		return false
+	}
+	w.allowed = func(from, f *ssa.Function) bool {
 		if f.Pkg == nil {
 			return false
 		}
 		p := f.Pkg.Pkg.Path()
+		if from == lw && p == zp && ast.IsExported(f.Name()) && callsCheck(f) {
+			// the std-log bridge calling the Logger method it stands for directly (rather than through a stored
+			// method value)
+			return true
+		}
 		if p == "go.uber.org/zap/internal/stacktrace" {
 			return true
 		}
@@ -970,6 +983,9 @@ func c15ConfigAnnotations(c *Ctx, rule string) {
 				d0, c0, s0 := dev, dc, ds
 				seqs, trunc := ConcPaths(fn, ConcCfg{
 					Prune: true,
+					// the three switches of the configuration the method is called on (a copy handed to a helper
+					// carries them along)
+					InitFields: []FieldVal{{Obj: fn.Params[0], Field: "Development", Val: d0}, {Obj: fn.Params[0], Field: "DisableCaller", Val: c0}, {Obj: fn.Params[0], Field: "DisableStacktrace", Val: s0}},
 					Conc: func(d string) (int64, bool) {
 						switch d {
 						case rn + ".Development":
